@@ -94,6 +94,22 @@ func gained(before, after fp) string {
 		if same && diff {
 			return ":only-metadata-source-of-nodes-changed"
 		}
+		// ... or in nothing but the stored parent links
+		same, diff = true, false
+		for i, n := range before.walk {
+			m := after.walk[i]
+			if n.Parent != m.Parent {
+				diff = true
+				m.Parent = n.Parent
+			}
+			if n != m {
+				same = false
+				break
+			}
+		}
+		if same && diff {
+			return ":only-parent-links-of-nodes-changed"
+		}
 	}
 	for i, n := range before.walk {
 		if i >= len(after.walk) {
@@ -407,6 +423,20 @@ type embSecond struct {
 	Z string       `config:"emb.zz9"`
 }
 
+// a *Config (or Config) in a field tagged inline contributes its settings and
+// its list elements to the enclosing object
+type inlC struct {
+	N string       `config:"zzname"`
+	E *ucfg.Config `config:",inline"`
+}
+type inlV struct {
+	E ucfg.Config `config:",inline"`
+}
+type inl2 struct {
+	A *ucfg.Config `config:",inline"`
+	B *ucfg.Config `config:",inline"`
+}
+
 type embV struct {
 	E ucfg.Config `config:"emb"`
 }
@@ -440,6 +470,21 @@ func (check) Run(seed int64, tier string, idx int, verbose bool) harness.Result 
 			if r.Intn(3) == 0 {
 				// settings that are references to whole objects/lists of the same tree
 				res.Ev("source_object_references", int64(withObjRefs(r, st, "")))
+			}
+			if r.Intn(3) == 0 {
+				// references to settings that are references themselves
+				for i, k := 0, 1+r.Intn(2); i < k; i++ {
+					cand := []string{"x"}
+					for _, key := range st.SortedKeys() {
+						if v := st.D[key]; v.Kind == model.KPrim {
+							if t, ok := v.Prim.(string); ok && strings.Contains(t, "${") {
+								cand = append(cand, key)
+							}
+						}
+					}
+					st.Set(fmt.Sprintf("w%d", i+1), model.P("${"+cand[r.Intn(len(cand))]+"}"))
+					res.Ev("source_chained_references", 1)
+				}
 			}
 		}
 		// a quarter of the sources know where they come from (MetaData), the
@@ -638,7 +683,7 @@ func (check) Run(seed int64, tier string, idx int, verbose bool) harness.Result 
 
 		// --- placement ---
 		var from interface{}
-		placement := []string{"direct", "map", "nested-map", "slice-twice", "struct-ptr", "struct-value", "map-twice", "map-second-spelling", "struct-second-spelling"}[r.Intn(9)]
+		placement := []string{"direct", "map", "nested-map", "slice-twice", "struct-ptr", "struct-value", "map-twice", "map-second-spelling", "struct-second-spelling", "struct-inline-ptr", "struct-inline-value", "struct-two-inline"}[r.Intn(12)]
 		if (srcIsList && r.Intn(2) == 0) || r.Intn(5) == 0 || col != nil {
 			placement = "direct"
 		}
@@ -664,8 +709,52 @@ func (check) Run(seed int64, tier string, idx int, verbose bool) harness.Result 
 			from = map[string]interface{}{"emb": src, "emb.zz9": "second", "emb.zz8.k": 1}
 		case "struct-second-spelling":
 			from = embSecond{E: src, Z: "second"}
+		case "struct-inline-ptr":
+			from, prefix = inlC{N: "n", E: src}, ""
+		case "struct-inline-value":
+			from, prefix = &inlV{*src}, ""
+		case "struct-two-inline":
+			// a second inlined config defines other settings of the objects
+			// the source holds at the same names / list positions
+			prefix = ""
+			w := ucfg.VerifWalk(src)
+			var second *model.Node
+			if w[0].NArr > 0 {
+				second = model.List()
+			} else {
+				second = model.Dict().Set("zq1", model.P("s"))
+			}
+			for _, n := range w[1:] {
+				if strings.Contains(n.Walk, ".") {
+					continue
+				}
+				switch {
+				case second.HasA && n.Kind == "sub" && n.NArr == 0:
+					second.A = append(second.A, model.Dict().Set("zq2", model.P(int64(len(second.A)))))
+				case second.HasA:
+					// nothing can be added to a primitive or list element: the
+					// second list ends before it
+					goto built
+				case n.Kind == "sub" && n.NArr == 0 && r.Intn(2) == 0:
+					second.Set(n.Walk, model.Dict().Set("zq2", model.P(int64(1))))
+				}
+			}
+		built:
+			sc, err := ucfg.NewFrom(second.ToGo(), rdOpts...)
+			if err != nil {
+				fail("newfrom-error", "NewFrom(%s): %v", second, err)
+				return
+			}
+			if r.Intn(2) == 0 {
+				from = inl2{A: src, B: sc}
+				log = append(log, fmt.Sprintf("inline: source, then %s", second))
+			} else {
+				from = inl2{A: sc, B: src}
+				log = append(log, fmt.Sprintf("inline: %s, then source", second))
+			}
 		}
 		embedded := placement != "direct"
+		inline := strings.HasPrefix(placement, "struct-inline") || placement == "struct-two-inline"
 		if col != nil {
 			res.SetAdd("placement", "collector-add")
 		} else {
@@ -712,8 +801,25 @@ func (check) Run(seed int64, tier string, idx int, verbose bool) harness.Result 
 			res.Eval(1)
 			log = append(log, fmt.Sprintf("dst.Merge(%s, %s)", placement, pol.n))
 			if err != nil {
+				// a refused merge has not changed the source either
+				if after := fingerprintOf(srcRoot); after.text != fBefore.text {
+					fail("source-modified-by-refused-merge"+gained(fBefore, after), "Merge returned %v and the fingerprint of the source changed: %q vs %q", err, firstDiff(fBefore.text, after.text), firstDiff(after.text, fBefore.text))
+					return
+				}
+				if inline {
+					// inlined settings may collide with what the struct or the
+					// other inlined config defines: refusing that is C05's subject
+					res.Ev("inline_merges_refused", 1)
+					return
+				}
 				fail("merge-error", "Merge returned %v", err)
 				return
+			}
+			if inline {
+				res.Ev("inline_merges_done", 1)
+				if ucfg.VerifWalk(src)[0].NArr > 0 {
+					res.Ev("inline_merges_of_list_shaped_sources", 1)
+				}
 			}
 		} else {
 			// every config handed to the collector is the source of a merge
@@ -965,6 +1071,99 @@ func (check) Run(seed int64, tier string, idx int, verbose bool) harness.Result 
 			}
 		}
 
+		// envProbe: one side is read with the OTHER side as its environment,
+		// so that settings of both are evaluated within one call (a name the
+		// side lacks is looked up in the environment). Whatever the two sides
+		// have in common after the merge, reading everything in one call
+		// yields what reading setting by setting (one call each) yields.
+		envProbe := func(sname string, side, other, env *ucfg.Config, i int) (cont bool) {
+			if ucfg.VerifWalk(side)[0].NArr > 0 || ucfg.VerifWalk(env)[0].NArr > 0 {
+				return true
+			}
+			var names, dyns []string
+			for _, n := range ucfg.VerifWalk(env)[1:] {
+				if !strings.Contains(n.Walk, ".") && (n.Kind == "string" || n.Kind == "dyn") {
+					names = append(names, n.Walk)
+					if n.Kind == "dyn" {
+						dyns = append(dyns, n.Walk)
+					}
+				}
+			}
+			if len(names) == 0 {
+				return true
+			}
+			k := names[r.Intn(len(names))]
+			if len(dyns) > 0 && r.Intn(3) > 0 {
+				k = dyns[r.Intn(len(dyns))]
+			}
+			// the side does not define the name itself (any more) ...
+			if has, _ := side.Has(k, -1); has {
+				if _, cont = step(sname, "env-probe:Remove", k, side, other, visible, func() error {
+					_, e := side.Remove(k, -1, sepOpt)
+					return e
+				}); !cont {
+					return false
+				}
+			}
+			// ... differs from the other side in a plain setting ...
+			if r.Intn(2) == 0 {
+				t := "x"
+				if r.Intn(2) == 0 {
+					var plain []string
+					for _, n := range ucfg.VerifWalk(side)[1:] {
+						if n.Kind == "string" && !strings.Contains(n.Walk, ".") {
+							plain = append(plain, n.Walk)
+						}
+					}
+					if len(plain) > 0 {
+						t = plain[r.Intn(len(plain))]
+					}
+				}
+				if _, cont = step(sname, "env-probe:SetString", t, side, other, visible, func() error {
+					return side.SetString(t, -1, fmt.Sprintf("envw%d", i), sepOpt)
+				}); !cont {
+					return false
+				}
+			}
+			// ... and refers to it
+			zenv := fmt.Sprintf("zenv%d", i)
+			ok, cont := step(sname, "env-probe:Merge{"+zenv+":${"+k+"}}", "", side, other, visible, func() error {
+				return side.Merge(map[string]interface{}{zenv: "${" + k + "}"}, sepOpt, ucfg.VarExp)
+			})
+			if !cont || !ok {
+				return cont
+			}
+			ro := []ucfg.Option{sepOpt, ucfg.VarExp, ucfg.Env(env)}
+			var m map[string]interface{}
+			res.Eval(1)
+			if e := side.Unpack(&m, ro...); e != nil {
+				res.Ev("env_reads_refused", 1)
+				return true
+			}
+			res.Ev("env_reads_in_one_call", 1)
+			if _, ok := m[zenv].(string); ok {
+				res.Ev("env_reads_resolved_through_other_side", 1)
+			}
+			for _, n := range ucfg.VerifWalk(side)[1:] {
+				if n.Kind != "string" && n.Kind != "dyn" {
+					continue
+				}
+				v, ok := lookup(m, n.Walk)
+				want, isStr := v.(string)
+				if !ok || !isStr {
+					continue
+				}
+				got, e := side.String(n.Walk, -1, ro...)
+				res.Eval(1)
+				res.Ev("env_read_settings_compared", 1)
+				if e != nil || got != want {
+					fail("one-call-read-with-other-side-as-env-differs-from-separate-reads", "%s.Unpack(Env(other side)) yields %q for %q, %s.String(%q, Env(other side)) yields %q (err=%v)", sname, want, n.Walk, sname, n.Walk, got, e)
+					return false
+				}
+			}
+			return true
+		}
+
 		// --- history: mutate one side, the other must not move ---
 		n := 1 + r.Intn(12)
 		crossMerges := 0
@@ -1065,6 +1264,14 @@ func (check) Run(seed int64, tier string, idx int, verbose bool) harness.Result 
 				}
 			}
 		}
+		// both sides read with the other one as environment
+		if r.Intn(2) == 0 {
+			if !envProbe("dst", dst, srcRoot, srcRoot, n) || !envProbe("src", src, dst, dst, n+1) {
+				return
+			}
+		} else if !envProbe("src", src, dst, dst, n) || !envProbe("dst", dst, srcRoot, srcRoot, n+1) {
+			return
+		}
 		res.Ev("history_mutations", int64(muts))
 		if st.Size() >= 3 && muts >= 1 {
 			res.Key(strings.Join(log, ";"))
@@ -1088,6 +1295,29 @@ func (check) Run(seed int64, tier string, idx int, verbose bool) harness.Result 
 		fmt.Println(strings.Join(log, "\n"))
 	}
 	return res.Done()
+}
+
+// lookup finds the value unpacked for the setting stored at path p.
+func lookup(v interface{}, p string) (interface{}, bool) {
+	for _, seg := range strings.Split(p, ".") {
+		switch x := v.(type) {
+		case map[string]interface{}:
+			w, ok := x[seg]
+			if !ok {
+				return nil, false
+			}
+			v = w
+		case []interface{}:
+			var i int
+			if _, err := fmt.Sscanf(seg, "%d", &i); err != nil || i < 0 || i >= len(x) || fmt.Sprint(i) != seg {
+				return nil, false
+			}
+			v = x[i]
+		default:
+			return nil, false
+		}
+	}
+	return v, true
 }
 
 // canonOf: address-free picture of a tree (stored kinds, values, unresolved
